@@ -188,28 +188,68 @@ fn render_arm_pattern(ap: &Json) -> String {
     }
 }
 
+use std::sync::atomic::{AtomicBool, Ordering};
+
+/// `true`: write only the parentheses the documented operator precedence requires
+/// (`--opt parens=min`), so that the parser's precedence/associativity table is part of the
+/// conformance; `false`: parenthesise every non-atomic operand.
+pub static MIN_PARENS: AtomicBool = AtomicBool::new(false);
+
 fn atomic(op: &str) -> bool {
     matches!(op, "lit" | "var" | "call" | "ffi" | "todo" | "fail" | "struct" | "some" | "ok" | "err")
 }
 
-/// An expression, parenthesised unless it is an atom of the grammar.
-fn sub(e: &Json) -> String {
+/// Binding strength as the language documents it (loosest first): `or` (right associative);
+/// `&&` `||`; `==` `!=`; `<` `>` `<=` `>=` and postfix `is`; prefix `!`; postfix `substruct`/`as`;
+/// postfix `.field`; atoms (literals, calls, `if`, `match`, blocks).
+fn prec(op: &str) -> u8 {
+    match op {
+        "return" => 0,
+        "coalesce" => 1,
+        "and" | "or" => 2,
+        "eq" | "ne" => 3,
+        "lt" | "gt" | "le" | "ge" | "is" => 4,
+        "not" => 6,
+        "substruct" | "cast" => 7,
+        "dot" => 8,
+        _ => 9,
+    }
+}
+
+/// An operand that must bind at least as tightly as `min`.
+fn operand(e: &Json, min: u8) -> String {
     let op = st(&arr(e)[0]);
-    if atomic(op) { render_expr(e) } else { format!("({})", render_expr(e)) }
+    if MIN_PARENS.load(Ordering::Relaxed) {
+        if prec(op) >= min { render_expr(e) } else { format!("({})", render_expr(e)) }
+    } else if atomic(op) {
+        render_expr(e)
+    } else {
+        format!("({})", render_expr(e))
+    }
+}
+
+/// An expression in a position delimited by the grammar (parenthesised unless atomic, or in
+/// minimal mode unless it is a `return`, which swallows everything to its right).
+fn sub(e: &Json) -> String {
+    operand(e, 1)
 }
 
 pub fn render_expr(e: &Json) -> String {
     let n = arr(e);
     let (op, a, ks) = (st(&n[0]), &n[1], arr(&n[2]));
-    let bin = |sym: &str| format!("{} {sym} {}", sub(&ks[0]), sub(&ks[1]));
+    // left associative: the right operand must bind tighter
+    let bin = |sym: &str| {
+        let p = prec(op);
+        format!("{} {sym} {}", operand(&ks[0], p), operand(&ks[1], p + 1))
+    };
     match op {
         "lit" => render_value(a),
         "var" => st(a).to_string(),
         "some" => format!("Some({})", render_expr(&ks[0])),
         "ok" => format!("Ok({})", render_expr(&ks[0])),
         "err" => format!("Err({})", render_expr(&ks[0])),
-        "not" => format!("!{}", sub(&ks[0])),
-        "is" => format!("{} is {}", sub(&ks[0]), if a.as_bool() == Some(true) { "Some" } else { "None" }),
+        "not" => format!("!{}", operand(&ks[0], 6)),
+        "is" => format!("{} is {}", operand(&ks[0], 5), if a.as_bool() == Some(true) { "Some" } else { "None" }),
         "and" => bin("&&"),
         "or" => bin("||"),
         "eq" => bin("=="),
@@ -218,7 +258,8 @@ pub fn render_expr(e: &Json) -> String {
         "gt" => bin(">"),
         "le" => bin("<="),
         "ge" => bin(">="),
-        "coalesce" => bin("or"),
+        // right associative
+        "coalesce" => format!("{} or {}", operand(&ks[0], 2), operand(&ks[1], 1)),
         "call" => format!("{}({})", st(a), ks.iter().map(render_expr).collect::<Vec<_>>().join(", ")),
         "ffi" => format!("vt::{}({})", st(a), ks.iter().map(render_expr).collect::<Vec<_>>().join(", ")),
         "if" => format!(
@@ -237,9 +278,9 @@ pub fn render_expr(e: &Json) -> String {
             s.push('}');
             s
         }
-        "dot" => format!("{}.{}", sub(&ks[0]), st(a)),
-        "substruct" => format!("{} substruct {}", sub(&ks[0]), st(a)),
-        "cast" => format!("{} as {}", sub(&ks[0]), st(a)),
+        "dot" => format!("{}.{}", operand(&ks[0], 8), st(a)),
+        "substruct" => format!("{} substruct {}", operand(&ks[0], 7), st(a)),
+        "cast" => format!("{} as {}", operand(&ks[0], 7), st(a)),
         "struct" => {
             let p = arr(a);
             let names = arr(&p[1]);
